@@ -279,7 +279,7 @@ def read_buffer_ops(files):
             s1 = b1 if s1 < 0 or s1 > b1 else s1 + 1
             stmt = src[s0:s1]
             lock_text = src[m.start():m.end()]
-            bm = re.match(r"\s*let\s+(?:mut\s+)?(\w+)\s*=\s*" + re.escape(lock_text) + r"\s*;\s*$", stmt)
+            bm = re.match(r"\s*let\s+(?:mut\s+)?(\w+)\s*=\s*" + re.escape(lock_text) + r"\s*(?:\.\s*ok\(\)\s*\?|\?|\.\s*unwrap\(\)|\.\s*expect\([^)]*\))?\s*;\s*$", stmt)
             if bm:
                 uses = classify_buffer_uses(src[s1:b1], bm.group(1))
             else:
@@ -385,16 +385,43 @@ def read_live_frames(src):
     upd = re.search(r"\blast_seq\s*=\s*Some\(\s*event\.seq\s*\)\s*;", body)
     running = bool(ret and upd and (not sm or sm.end() < upd.start() < ret.start()))
     # Lagged: refill from the history, or skipped
-    lag_arms = re.findall(r"Err\(\s*(?:broadcast::error::|error::)?RecvError::Lagged\(\s*_\w*\s*\)\s*\)\s*=>\s*(\{[^{}]*\}|[^,{}]*,)", body)
     catch_all = re.search(r"Err\(\s*_\w*\s*\)\s*=>", body)
-    if len(lag_arms) == 1 and not catch_all and re.fullmatch(r"\{?\s*pending\s*\.\s*extend\(\s*refill\(\)\s*\.\s*await\s*\)\s*[;,]?\s*\}?", lag_arms[0].strip()):
-        # the refilled frames must go through the same filters: they are queued in `pending`, which the loop pops first
-        pops = re.search(r"let\s+Some\(\s*event\s*\)\s*=\s*pending\s*\.\s*pop_front\(\)\s*else\s*\{", body)
-        push = re.search(r"Ok\(\s*event\s*\)\s*=>\s*pending\s*\.\s*push_back\(\s*event\s*\)", body)
-        lag = "LagRefill" if (pops and push and running and flt == "FilterGtLast") else "LagSkip"
-    else:
-        lag = "LagSkip"
+    arms = list(re.finditer(r"Err\(\s*(?:broadcast::error::|error::)?RecvError::Lagged\(\s*_\w*\s*\)\s*\)\s*=>\s*", body))
+    lag = "LagSkip"
+    if len(arms) == 1 and not catch_all:
+        rest_ = body[arms[0].end():]
+        if rest_.startswith("{"):
+            arm = rest_[:match_brace(rest_, 0) + 1]
+        else:
+            arm = rest_[:rest_.find(",") + 1]
+        direct = re.fullmatch(r"\{?\s*pending\s*\.\s*extend\(\s*refill\(\)\s*\.\s*await\s*\)\s*[;,]?\s*\}?", arm.strip())
+        # `refill()` is asked until it answers (it never waits); what it answers is queued whole
+        polled = (re.search(r"let\s+history\s*=\s*loop\s*\{\s*if\s+let\s+Some\(\s*history\s*\)\s*=\s*refill\(\)\s*\{\s*break\s+history\s*;\s*\}\s*tokio::task::yield_now\(\)\s*\.\s*await\s*;\s*\}\s*;", arm)
+                  and re.search(r"pending\s*\.\s*extend\(\s*history\s*\)\s*;", arm)
+                  and len(re.findall(r"refill\(\)", arm)) == 1 and len(re.findall(r"\bpending\b", arm)) == 1)
+        if direct or polled:
+            # the refilled frames must go through the same filters: they are queued in `pending`, which the loop pops first
+            pops = re.search(r"let\s+Some\(\s*event\s*\)\s*=\s*pending\s*\.\s*pop_front\(\)\s*else\s*\{", body)
+            push = re.search(r"Ok\(\s*event\s*\)\s*=>\s*pending\s*\.\s*push_back\(\s*event\s*\)", body)
+            if pops and push and running and flt == "FilterGtLast":
+                lag = "LagRefill"
     return {"filter": flt, "own": own, "lag": lag, "running": running}, None
+
+
+def read_try_snapshot(src):
+    """the handle's non-waiting history read (refill) must read the buffer the attach snapshot reads"""
+    a = fn_span(src, "events_snapshot")
+    b = fn_span(src, "try_events_snapshot")
+    if not a or not b:
+        return None, "events_snapshot / try_events_snapshot not found"
+    am = re.search(r"self\s*\.\s*(\w+)\s*\.\s*lock\(\)\s*\.\s*await\s*\.\s*clone\(\)", src[a[0]:a[1]])
+    body = src[b[0]:b[1]]
+    bm = re.search(r"let\s+(\w+)\s*=\s*self\s*\.\s*(\w+)\s*\.\s*try_lock\(\)\s*\.\s*ok\(\)\s*\?\s*;\s*Some\(\s*(\w+)\s*\.\s*clone\(\)\s*\)", body)
+    if not am or not bm or bm.group(1) != bm.group(3):
+        return None, "events_snapshot / try_events_snapshot in an unknown shape"
+    if am.group(1) != bm.group(2):
+        return None, f"try_events_snapshot reads `{bm.group(2)}`, events_snapshot reads `{am.group(1)}`"
+    return am.group(1), None
 
 
 def read_handler(src, fname, snap_re, shared_channel=False):
@@ -404,8 +431,11 @@ def read_handler(src, fname, snap_re, shared_channel=False):
     body = src[sp[0]:sp[1]]
     subs = [m.start() for m in re.finditer(r"\.subscribe\(\)", body)]
     snaps = [m.start() for m in re.finditer(snap_re, body)]
-    helper = re.search(r"let\s+live_stream\s*=\s*live_frames\(\s*(\w+)\s*,\s*last_seq\s*,\s*([^,]+?)\s*,\s*move\s*\|\|\s*\{", body)
-    n_snaps = 2 if helper else 1
+    helper = re.search(r"let\s+live_stream\s*=\s*live_frames\(\s*(\w+)\s*,\s*last_seq\s*,\s*([^,]+?)\s*,\s*move\s*\|\|", body)
+    # the refill closure re-reads the history: thread: replay_events again; session / task: the handle's
+    # try_events_snapshot (checked below to read the same buffer as events_snapshot)
+    refill_re = snap_re if shared_channel else r"\.try_events_snapshot\(\)"
+    n_snaps = 2 if (helper and shared_channel) else 1
     if len(subs) != 1 or len(snaps) != n_snaps:
         return None, f"{fname}: {len(subs)} subscribe / {len(snaps)} snapshot calls (expected 1 / {n_snaps})"
     so = "SubThenSnap" if subs[0] < snaps[0] else "SnapThenSub"
@@ -427,8 +457,6 @@ def read_handler(src, fname, snap_re, shared_channel=False):
         # ---- the live half is fn live_frames(receiver, last_seq, stream id, refill)
         if helper.group(1) != rm.group(1):
             return None, f"{fname}: the receiver handed to live_frames is not the subscribed one"
-        if not (helper.start() < snaps[1]):
-            return None, f"{fname}: the second history read is not the refill closure of live_frames"
         lf, why = read_live_frames(src)
         if lf is None:
             return None, why
@@ -443,8 +471,12 @@ def read_handler(src, fname, snap_re, shared_channel=False):
         # the refill closure re-reads the SAME history source as the attach snapshot
         clos = body[helper.end():]
         clos = clos[:clos.find("});") if clos.find("});") >= 0 else len(clos)]
-        if len(re.findall(snap_re, clos)) != 1:
-            return None, f"{fname}: the refill closure does not re-read the history with the attach snapshot's call"
+        if len(re.findall(refill_re, clos)) != 1 or len(re.findall(refill_re, body)) != (2 if shared_channel else 1):
+            return None, f"{fname}: the refill closure does not re-read the history of the attach snapshot's source"
+        hm = re.search(r"(\w+)\s*" + refill_re, clos)
+        am = re.search(r"(\w+)\s*" + snap_re, body)
+        if not hm or not am or hm.group(1) != am.group(1):
+            return None, f"{fname}: the refill closure reads another object than the attach snapshot"
         return {"sorder": so, "filter": lf["filter"], "lag_swallowed": lf["lag"] != "LagRefill", "lag": lf["lag"], "own_filter": shared_channel}, None
     # ---- the live half is written out in the handler (BroadcastStream + filter_map)
     if not re.search(r"BroadcastStream::new\(\s*" + rm.group(1) + r"\s*\)", body):
@@ -547,6 +579,12 @@ def extract(repo):
             ok = False
             notes.append(f"{name} handler: {why}")
         csrc = read_src(repo, capfile)
+        if hand is not None and hand.get("lag") == "LagRefill" and name != "thread":
+            buf_name, why_t = read_try_snapshot(csrc) if csrc else (None, f"{capfile} not found")
+            if buf_name is None:
+                ok = False
+                notes.append(f"{name} refill: {why_t}")
+                hand["lag"] = "LagSkip"
         cap = const_value(csrc, "EVENT_CHANNEL_CAPACITY") if csrc else None
         if cap is None:
             ok = False
@@ -797,6 +835,13 @@ def selftest():
     assert mkl("Err(broadcast::error::RecvError::Lagged(_)) => continue,", "<=", UPD)["lag"] == "LagSkip"
     assert mkl(LAG, "<=", "")["lag"] == "LagSkip"          # refill without the running last_seq would duplicate
     assert mkl(LAG, "<", UPD) == {"filter": "FilterGeLast", "own": True, "lag": "LagSkip", "running": True}
+    LAG2 = "Err(broadcast::error::RecvError::Lagged(_)) => { let history = loop { if let Some(history) = refill() { break history; } tokio::task::yield_now().await; }; pending.extend(history); }"
+    assert mkl(LAG2, "<=", UPD)["lag"] == "LagRefill"
+    assert mkl(LAG2.replace("pending.extend(history);", "drop(history);"), "<=", UPD)["lag"] == "LagSkip"
+    hs = "impl H { pub(crate) async fn events_snapshot(&self) -> Vec<Event> { self.events.lock().await.clone() } pub(crate) fn try_events_snapshot(&self) -> Option<Vec<Event>> { let events = self.%B%.try_lock().ok()?; Some(events.clone()) } }"
+    assert read_try_snapshot(hs.replace("%B%", "events"))[0] == "events"
+    assert read_try_snapshot(hs.replace("%B%", "other"))[0] is None
+    assert ops(decl + "fn t(&self) -> Option<Vec<Event>> { let events = self.events.try_lock().ok()?; Some(events.clone()) }") == ["BRead"]
     print("stream_order.py selftest ok")
 
 
